@@ -179,6 +179,114 @@ def arg_groups(fn: ast.FunctionDef) -> list[tuple[str, str]]:
     return out
 
 
+# ---- the static/dynamic split of _create_cache ---------------------------------------------------------------
+
+MEMBER_OF = {"self._reactions": "inReactions", "self._surrogates": "inSurrogates",
+             "self._variables": "inVariables", "self._parameters": "inParameters"}
+
+
+def bool_term(e: ast.expr, loopvar: str) -> str:
+    if isinstance(e, ast.BoolOp):
+        op = " || " if isinstance(e.op, ast.Or) else " && "
+        return "(" + op.join(bool_term(v, loopvar) for v in e.values) + ")"
+    if isinstance(e, ast.UnaryOp) and isinstance(e.op, ast.Not):
+        return f"(!{bool_term(e.operand, loopvar)})"
+    if (isinstance(e, ast.Compare) and len(e.ops) == 1 and isinstance(e.ops[0], ast.In)
+            and isinstance(e.left, ast.Name) and e.left.id == loopvar and ast.unparse(e.comparators[0]) in MEMBER_OF):
+        return MEMBER_OF[ast.unparse(e.comparators[0])]
+    raise Unsupported(f"classification test {ast.unparse(e)!r} is not a boolean combination of `name in self._<container>`")
+
+
+def classification(cc: ast.FunctionDef, order_var: str) -> str:
+    """the loop that splits `order` into static and dynamic names -> `classifyKind`"""
+    # which list is the dynamic one: the `dyn_order=` argument of the ModelCache(...) call
+    dyn_var = None
+    for n in ast.walk(cc):
+        if isinstance(n, ast.Call) and ast.unparse(n.func) == "ModelCache":
+            for k in n.keywords:
+                if k.arg == "dyn_order" and isinstance(k.value, ast.Name):
+                    dyn_var = k.value.id
+    if dyn_var is None:
+        raise Unsupported("ModelCache(dyn_order=<local>) not found in _create_cache")
+    loops = [s for s in cc.body if isinstance(s, ast.For) and ast.unparse(s.iter) == order_var
+             and len(s.body) == 1 and isinstance(s.body[0], ast.If)]
+    if len(loops) != 1:
+        raise Unsupported(f"expected exactly one classification loop over `{order_var}`, found {len(loops)}")
+    loop = loops[0]
+    n = loop.target.id
+
+    def appended(body) -> str | None:
+        if len(body) == 1 and isinstance(body[0], ast.Expr) and isinstance(body[0].value, ast.Call):
+            c = body[0].value
+            if (isinstance(c.func, ast.Attribute) and c.func.attr == "append" and isinstance(c.func.value, ast.Name)
+                    and len(c.args) == 1 and ast.unparse(c.args[0]) == n):
+                return c.func.value.id
+        return None
+
+    branches = []
+    node = loop.body[0]
+    static_var = None
+    while True:
+        tgt = appended(node.body)
+        if tgt is None:
+            raise Unsupported(f"classification branch {ast.unparse(node.test)!r} does more than append the name to one list")
+        kind = "dynamic" if tgt == dyn_var else "static"
+        if kind == "static":
+            static_var = static_var or tgt
+            if tgt != static_var:
+                raise Unsupported("classification appends to more than two lists")
+        branches.append((bool_term(node.test, n), kind))
+        if len(node.orelse) == 1 and isinstance(node.orelse[0], ast.If) and appended(node.orelse[0].body) is not None:
+            node = node.orelse[0]
+            continue
+        tail = node.orelse
+        break
+    # the final else: the derived quantity is static iff every argument is already a parameter name
+    if not (len(tail) == 2 and isinstance(tail[0], ast.Assign) and isinstance(tail[0].targets[0], ast.Name)
+            and ast.unparse(tail[0].value) == f"self._derived[{n}]" and isinstance(tail[1], ast.If)):
+        raise Unsupported("the last classification branch no longer looks the derived quantity up in self._derived")
+    dv = tail[0].targets[0].id
+    test = tail[1].test
+    if not (isinstance(test, ast.Call) and ast.unparse(test.func) == "all" and len(test.args) == 1
+            and isinstance(test.args[0], ast.GeneratorExp)):
+        raise Unsupported("the derived test is no longer all(<arg> in <parameter names> for <arg> in derived.args)")
+    g = test.args[0]
+    if not (len(g.generators) == 1 and ast.unparse(g.generators[0].iter) == f"{dv}.args" and not g.generators[0].ifs
+            and isinstance(g.elt, ast.Compare) and len(g.elt.ops) == 1 and isinstance(g.elt.ops[0], ast.In)
+            and ast.unparse(g.elt.left) == ast.unparse(g.generators[0].target) and isinstance(g.elt.comparators[0], ast.Name)):
+        raise Unsupported("the derived test is no longer all(<arg> in <parameter names> for <arg> in derived.args)")
+    apn = g.elt.comparators[0].id
+    yes = sorted(ast.unparse(x) for x in tail[1].body)
+    no = [ast.unparse(x) for x in tail[1].orelse]
+    if static_var is None:
+        raise Unsupported("no static branch in the classification")
+    if yes != sorted([f"{static_var}.append({n})", f"{apn}.add({n})"]) or no != [f"{dyn_var}.append({n})"]:
+        raise Unsupported("a parameter-only derived quantity is no longer (static, added to the parameter names) / else dynamic")
+    # the parameter-name set must start as the set of ALL parameters (plain and assignment-defined)
+    seed = the_assign(cc, apn)
+    seen = 0
+    while not (ast.unparse(seed) in ("set(self._parameters)", "set(self._parameters.keys())")):
+        if (isinstance(seed, ast.Call) and isinstance(seed.func, ast.Name) and seed.func.id == "set" and len(seed.args) == 1
+                and isinstance(seed.args[0], ast.Name)) and seen < 4:
+            seed = the_assign(cc, seed.args[0].id)
+            seen += 1
+            continue
+        if isinstance(seed, ast.Name) and seen < 4:
+            seed = the_assign(cc, seed.id)
+            seen += 1
+            continue
+        raise Unsupported(f"the parameter-name set no longer starts as set(self._parameters): {ast.unparse(seed)}")
+    term = "Kind.derived"
+    for cond, kind in reversed(branches):
+        term = f"if {cond} then Kind.{kind} else {term}"
+    return ("/-- how `_create_cache` files a sorted name before it looks at derived quantities -/\n"
+            "inductive Kind where\n  | dynamic | static | derived\nderiving DecidableEq, Repr\n\n"
+            "/-- the if / elif chain of the split loop (the last `else` = a derived quantity: static and added to the\n"
+            "    parameter names iff all its arguments are parameter names, which start as ALL parameters) -/\n"
+            "def classifyKind (inReactions inSurrogates inVariables inParameters : Bool) : Kind :=\n"
+            f"  {term}\n\n")
+
+
 def generate(repo: Path, outdir: Path) -> bool:
     src = repo / "src" / "mxlpy" / "model.py"
     tree = ast.parse(src.read_text())
@@ -224,6 +332,7 @@ def generate(repo: Path, outdir: Path) -> bool:
     if not any(isinstance(s, ast.For) and ast.unparse(s.iter) == "self._data" and len(s.body) == 1
                and ast.unparse(s.body[0]) == f"{args_var}.pop({s.target.id})" for s in ga.body if isinstance(s, ast.For)):
         raise Unsupported("_get_args no longer removes the data sets from the returned dict")
+    text += classification(cc, order_var)
     groups = arg_groups(gn)
     text += ("/-- `get_arg_names`: (flag consulted, group appended) in the order of the method body -/\n"
              "def argGroups : List (String × String) :=\n  ["
